@@ -245,5 +245,6 @@ def run_case(ctx, desc):
                     print('   ', e)
             return
         if not desc.get('shard') or desc['shard'][0] == 0:
-            S.determinism_guard(make, lambda s, st: (s.log, s.deadlock))
+            if not S.guard(ctx, 'C09', make, lambda s, st: (s.log, s.deadlock), dict(desc)):
+                return
         S.explore(make, desc['bound'], ctx, oracle(ctx, desc), max_execs=400000, shard=desc.get('shard'), name=str(desc))
